@@ -335,6 +335,12 @@ class Tracer:
         frame = (f['key'], full)
         lim = self.limit
         bl = bool_locals(f)
+        # blocks that are the failing arm of an assert(): a branch that survives an assertion is no guard (NDEBUG removes it),
+        # so it yields no branch item; the failing arm itself is still walked (it ends in abort)
+        ab = f.get('_assert_blocks')
+        if ab is None:
+            ab = {b_['id'] for b_ in f['blocks'] if any(e_.k == 'call' and e_.get('noreturn') and re.search(r'\b__assert(_perror)?_fail\b|\b__assert\b', e_.get('callee') or '') for e_ in b_['ev'][:2])}
+            f['_assert_blocks'] = ab
 
         def walk(bid, cnt, acc):
             if len(out) >= lim:
@@ -401,7 +407,9 @@ class Tracer:
                 c = dict(cnt); c[s] = c.get(s, 0) + 1
                 for sq in seqs:
                     item = []
-                    if cond is not None and len(succ) == 2:
+                    if cond is not None and len(succ) == 2 and s not in ab and succ[1 - i] in ab:
+                        item = []
+                    elif cond is not None and len(succ) == 2:
                         val = (i == 0)
                         if cond.get('neg'):
                             val = not val
@@ -472,7 +480,8 @@ class Tracer:
         else:
             env = {}
             if ee.get('recv'):
-                env['this'] = ee['recv']
+                m_ = re.fullmatch(r'\*\(((?:this|param:\w+|local:\w+|capture:\w+)(?:#\d+)?)\)', ee['recv'])
+                env['this'] = m_.group(1) if m_ else ee['recv']      # (*p).f(): the callee's this is p
             elif ee.k == 'construct':
                 env['this'] = 'obj@%s' % ee.id
             args = ee.get('args') or []
@@ -633,19 +642,37 @@ def has_back_edge(f):
     return dfs(f['entry'])
 
 
-def var_def(f, var):
-    """the unique defining event of local `var` ('x' or 'local:x'): decl with initialiser and no later write"""
+def _lc(loc):
+    p = (loc or '').rsplit(':', 2)
+    try:
+        return int(p[1]), int(p[2])
+    except (IndexError, ValueError):
+        return None
+
+
+def var_def(f, var, at=None):
+    """the unique defining event of local `var` ('x' or 'local:x'): decl with initialiser and no later write.  Several locals may share a
+    name (nested scopes, the compiler's __range/__begin variables of sibling range-for loops): `at` (a source location) selects the
+    declaration on the same line, else the nearest one above"""
     var = var.split(':', 1)[1] if var.startswith('local:') else var
     var = var.split('#')[0]
-    decl = None; writes = 0
+    decls = []; writes = 0
     for e in f.events():
         if e.k == 'decl' and e.get('var') == var:
-            decl = e
+            decls.append(e)
         if e.k == 'write' and e.get('path') == 'local:' + var:
             writes += 1
-    if decl is not None and writes == 0:
-        return decl
-    return None
+    if not decls or writes:
+        return None
+    if len(decls) > 1 and at is not None and _lc(at):
+        l0, c0 = _lc(at)
+        same = [d for d in decls if _lc(d.get('loc')) and _lc(d['loc'])[0] == l0]
+        if same:
+            return min(same, key=lambda d: abs(_lc(d['loc'])[1] - c0))
+        above = [d for d in decls if _lc(d.get('loc')) and _lc(d['loc'])[0] < l0]
+        if above:
+            return max(above, key=lambda d: _lc(d['loc']))
+    return decls[-1]
 
 
 def value_origin(f, ev_or_path, depth=6):
@@ -700,7 +727,7 @@ def efield(f, e, which='field'):
     m = re.match(r'local:(\w+)', p)
     if not m:
         return ''
-    d = var_def(f, m.group(1))
+    d = var_def(f, m.group(1), e.get('loc'))
     if d is None or not (d.get('ref') or d.get('ptr')):
         return ''
     if d.get('init_field'):
